@@ -94,6 +94,22 @@ def gridDiskDistancesUnsafe (origin : BitVec 64) (k : Int) : Option H3Error × A
                 else go ring dir i st fuel
       go 1 0 0 { out := out, dist := dist, origin := origin, rot := 0 } (3 * kk * (kk + 1) + 1)
 
+/-- `gridDisksUnsafe(h3Set, length, k, out)`: the unsafe disk of each cell into its own segment of
+`maxGridDiskSize k` slots of the caller's zero-initialised buffer; stops at the first failing cell. -/
+def gridDisksUnsafe (cells : List (BitVec 64)) (k : Int) : R (Array (BitVec 64)) :=
+  match maxGridDiskSize k with
+  | .error e => .error e
+  | .ok m =>
+    let seg := m.toNat
+    let rec go (cs : List (BitVec 64)) (acc : Array (BitVec 64)) : R (Array (BitVec 64)) :=
+      match cs with
+      | [] => .ok acc
+      | c :: cs =>
+        match gridDiskDistancesUnsafe c k with
+        | (some e, _, _) => .error e
+        | (none, o, _) => go cs (acc ++ o ++ Array.replicate (seg - o.size) 0#64)
+    go cells #[]
+
 /-- `gridDiskDistances` (and `gridDisk`): (error?, out[maxIdx], distances[maxIdx]).
 The arrays are the caller's buffers of `maxGridDiskSize k` slots, zero-initialised by the driver. -/
 def gridDiskDistances (origin : BitVec 64) (k : Int) : R (Array (BitVec 64) × Array Int) :=
